@@ -66,23 +66,32 @@ def make_hint_pep484_union(hints: TupleHints) -> Hint:
         raise BeartypeDecorHintPep484Exception('"hints" tuple empty.')
     # Else, this tuple contains one or more child type hints.
 
-    # Return either...
-    return (
-        # If the active Python interpreter targets Python >= 3.14, the PEP
-        # 484-compliant union dynamically created by deferring to the C-based
-        # typing.Union.__class_getitem__() class method.
-        #
-        # Note that this method does *NOT* exist under older Python versions.
-        Union.__class_getitem__(hints)  # type: ignore[attr-defined]
-        if IS_PYTHON_AT_LEAST_3_14 else
-        # Else, the active Python interpreter targets Python <= 3.13. In this
-        # case, the PEP 484-compliant union dynamically created by deferring to
-        # the pure-Python typing.Union.__getitem__() instance method.
-        #
-        # Note that this method still exists but is *NOT* safely callable under
-        # newer Python versions, where doing so raises "TypeError" exceptions
-        # resembling:
-        #     TypeError: descriptor '__getitem__' requires a 'typing.Union'
-        #     object but received a 'tuple'
-        Union.__getitem__(hints)  # type: ignore[return-value]
-    )
+    # Attempt to return either...
+    try:
+        return (
+            # If the active Python interpreter targets Python >= 3.14, the PEP
+            # 484-compliant union dynamically created by deferring to the C-based
+            # typing.Union.__class_getitem__() class method.
+            #
+            # Note that this method does *NOT* exist under older Python versions.
+            Union.__class_getitem__(hints)  # type: ignore[attr-defined]
+            if IS_PYTHON_AT_LEAST_3_14 else
+            # Else, the active Python interpreter targets Python <= 3.13. In this
+            # case, the PEP 484-compliant union dynamically created by deferring to
+            # the pure-Python typing.Union.__getitem__() instance method.
+            #
+            # Note that this method still exists but is *NOT* safely callable under
+            # newer Python versions, where doing so raises "TypeError" exceptions
+            # resembling:
+            #     TypeError: descriptor '__getitem__' requires a 'typing.Union'
+            #     object but received a 'tuple'
+            Union.__getitem__(hints)  # type: ignore[return-value]
+        )
+    # If the "typing" module rejects one or more of these child hints as
+    # invalid (e.g., by raising a builtin "TypeError" or "SyntaxError"), wrap
+    # that non-human-readable exception in a human-readable beartype exception.
+    except Exception as exception:
+        raise BeartypeDecorHintPep484Exception(
+            f'PEP 484 union of child type hints {repr(hints)} invalid '
+            f'(i.e., {exception}).'
+        ) from exception
